@@ -640,10 +640,49 @@ func SortedTypestate(p *core.Program, r *core.Report) {
 			return true
 		})
 	}
+	// ... and functions that sort a slice parameter in place, at the call sites that hand them the field
+	paramSorters := map[*types.Func]int{}
+	for _, fd := range p.FuncsIn(core.PkgEval) {
+		info := fd.Pkg.TypesInfo
+		sig := fd.Obj.Type().(*types.Signature)
+		ast.Inspect(fd.Decl.Body, func(n ast.Node) bool {
+			if call, ok := n.(*ast.CallExpr); ok && len(call.Args) > 0 {
+				if fn := core.Callee(info, call); fn != nil && fn.Pkg() != nil && (fn.Pkg().Path() == "sort" || fn.Pkg().Path() == "slices") && strings.HasPrefix(core.RefName(fn), "S") {
+					if id, ok := ast.Unparen(call.Args[0]).(*ast.Ident); ok {
+						for i := 0; i < sig.Params().Len(); i++ {
+							if info.ObjectOf(id) == sig.Params().At(i) && sameType(sig.Params().At(i).Type(), fld.Type()) {
+								paramSorters[fd.Obj] = i
+							}
+						}
+					}
+				}
+			}
+			return true
+		})
+	}
+	sortsField := func(fd *core.FuncDecl, call *ast.CallExpr, fn *types.Func) bool {
+		i, ok := paramSorters[fn]
+		return ok && i < len(call.Args) && !call.Ellipsis.IsValid() && FieldBehind(fd, call.Args[i]) == fld
+	}
+	if len(sorters) == 0 {
+		for _, fd := range p.FuncsIn(core.PkgEval) {
+			fd := fd
+			ast.Inspect(fd.Decl.Body, func(n ast.Node) bool {
+				if call, ok := n.(*ast.CallExpr); ok {
+					if fn := core.Callee(fd.Pkg.TypesInfo, call); fn != nil && sortsField(fd, call, fn) {
+						r.Anchor("E4b re-establisher: " + core.FuncKey(fn) + " applied to the field in " + fd.Key())
+						sorters[nil] = true
+					}
+				}
+				return true
+			})
+		}
+	}
 	if len(sorters) == 0 {
 		r.Lost("E4b", "a function of package eval that sorts "+core.RefName(fld))
 		return
 	}
+	delete(sorters, nil)
 	for s := range sorters {
 		r.Anchor("E4b re-establisher: " + core.FuncKey(s))
 	}
@@ -710,7 +749,7 @@ func SortedTypestate(p *core.Program, r *core.Report) {
 				if call, ok := n.(*ast.CallExpr); ok {
 					fn := core.Callee(info, call)
 					for _, g := range p.Impls(fn) {
-						if sorters[g] {
+						if sorters[g] || sortsField(fd, call, g) {
 							return 0
 						}
 					}
@@ -790,3 +829,5 @@ func reachesAny(p *core.Program, fd *core.FuncDecl, pred func(*types.Func) bool)
 	}
 	return false
 }
+
+func sameType(a, b types.Type) bool { return types.Identical(a, b) }
